@@ -109,4 +109,11 @@ def load():
         "as C07/C08; invocation overlap is provoked by slow listener invocations (2 ms), observed with a single counter under one mutex (no wall-clock comparison)",
         "TLA+ contract-derived expected events + TLC-generated histories on real stores/brokers + TLC trace validation",
         "DESIGN.md 5/C16", "mailstore")
+    reg("C11", stores.c11, "fault_enumeration",
+        "Every file-system mutation point of every mutating file-store operation (after TLC-enumerated pre-histories) is a crash point; the on-disk state at that instant, plus the "
+        "shorter states of the file under write and partial recursive removals, is opened by a fresh store and TLC validates the recovery observations against the Mailstore contract "
+        "(readable, untouched mail intact, operation all-or-nothing, new mail accepted).",
+        "hooks at the mutation points (build tag verif); the enumeration of states between two hooks assumes a 4096-byte buffered writer and entry-by-entry recursive removal",
+        "fault enumeration of crash points + TLC trace validation against the TLA+ Mailstore contract",
+        "DESIGN.md 5/C11", "mailstore")
     return REG
